@@ -80,6 +80,7 @@ type table struct {
 	Startup   startupFacts `json:"startup"`
 	Login     loginFacts   `json:"login"`
 	Sessions  sessionFacts `json:"sessions"`
+	Limiter   limiterFacts `json:"limiter"`
 }
 
 var (
@@ -277,6 +278,7 @@ func main() {
 				scanStartup(p, &tab.Startup)
 				scanLogin(p, &tab.Login)
 				scanSessionKeys(p, &tab.Sessions)
+				scanLimiter(p, &tab.Limiter)
 			}
 		}
 	}
@@ -819,7 +821,7 @@ func writeOutputs(verif string, tab *table) {
 		fatal("%v", err)
 	}
 	writeIfChanged(filepath.Join(gen, "Routes.v"), []byte(b.String()))
-	writeIfChanged(filepath.Join(gen, "AuthPins.v"), []byte(coqLogin(&tab.Login, strings.TrimSpace(string(rev)))+coqSessionKeys(&tab.Sessions)))
+	writeIfChanged(filepath.Join(gen, "AuthPins.v"), []byte(coqLogin(&tab.Login, strings.TrimSpace(string(rev)))+coqSessionKeys(&tab.Sessions)+coqLimiter(&tab.Limiter)))
 	js, _ := json.MarshalIndent(tab, "", " ")
 	writeIfChanged(filepath.Join(gen, "routes.json"), js)
 	fmt.Printf("routes: %d routes, %d bindings, %d muxes, %d servers\n", len(tab.Routes), len(tab.Bindings), len(tab.Muxes), len(tab.Servers))
